@@ -1,70 +1,65 @@
 import BfeVerif.C33.Proofs
 /-!
   C33 — HTTP/2 inbound flow control is enforced and replenished.  Property theorems only.
-  `runEvs {isw} evs` = the server after the client frames / handler actions `evs`
-  (HEADERS, DATA with padding, handler reads, Body.Close, handler return, RST_STREAM), any order.
+  `runEvs {isw} evs` = the server (after fix C33-conn-credit) after the client frames / handler actions
+  `evs` (HEADERS, DATA with padding, handler reads, Body.Close, handler return, RST_STREAM), any order.
   Ghost counters (never read by the transitions): `sent` Σ DATA frame lengths received, `wu0` Σ
-  connection WINDOW_UPDATE increments sent, `held` octets still readable in body pipes, `rej` refused
-  with FLOW_CONTROL_ERROR, `leakOD`/`leakBC`/`leakUC` the three places where the code drops octets
-  without crediting them.
+  connection WINDOW_UPDATE increments sent, `held` octets still readable in body pipes, `rej` Σ lengths
+  of frames refused with FLOW_CONTROL_ERROR.
 -/
 namespace BfeVerif.C33
 
-/-- **credit identity (exact, no hypothesis)**: every DATA octet ever received (padding included) is
-    either credited back by a connection WINDOW_UPDATE, still buffered for a handler, refused with
-    FLOW_CONTROL_ERROR, or counted by one of the three leak counters. -/
-theorem C33_credit_exact (isw : Nat) (evs : List Ev) :
+/-- **C33 credit (full strength)**: every DATA octet ever received (padding included) is either
+    credited back by a connection WINDOW_UPDATE, still buffered for a handler that can read it, or
+    was refused with FLOW_CONTROL_ERROR.  There is no other place an octet can go. -/
+theorem C33_credit (isw : Nat) (evs : List Ev) :
     let s := runEvs { isw := isw } evs
-    s.sent = s.wu0 + s.held + s.rej + s.leakOD + s.leakBC + s.leakUC :=
-  (run_acct evs _ (init_acct isw)).1
+    s.sent = s.wu0 + s.held + s.rej := by
+  have h := (run_acct evs _ (init_acct isw)).1
+  simp only [] at h ⊢
+  omega
 
-/-- **server view vs advertised window**: `sc.inflow` is never negative and exceeds the window the
-    client was told (`65535 - sent + wu0`) by exactly the refused octets plus the over-declared octets
-    that `processData` dropped before touching `sc.inflow`. -/
+/-- **server view = advertised window**: `sc.inflow` is never negative and equals the window the
+    client was told (`65535 - sent + wu0`) plus the octets the server refused. -/
 theorem C33_server_view (isw : Nat) (evs : List Ev) :
     let s := runEvs { isw := isw } evs
-    s.conn = (65535 - s.sent + s.wu0) + s.rej + s.leakOD ∧ 0 ≤ s.conn := by
+    s.conn = (65535 - s.sent + s.wu0) + s.rej ∧ 0 ≤ s.conn := by
   have h := run_acct evs _ (init_acct isw)
   exact ⟨by have := h.2.1; omega, h.2.2⟩
 
-/-- The full-strength statements (what C33 demands). -/
-def C33_never_over_full : Prop :=
-  ∀ (isw : Nat) (evs : List Ev), let s := runEvs { isw := isw } evs
-    s.rej = 0 → s.sent ≤ 65535 + s.wu0        -- accepted octets never exceed what was advertised
-def C33_credit_full : Prop :=
-  ∀ (isw : Nat) (evs : List Ev), let s := runEvs { isw := isw } evs
-    s.rej = 0 → s.held = 0 → s.wu0 = s.sent   -- everything consumed/discarded is credited back
-
-/-- **never over the advertised window — partial**: as long as no DATA frame exceeded its declared
-    content-length, the octets accepted never exceed the octets advertised. -/
-theorem C33_never_over_partial (isw : Nat) (evs : List Ev) :
+/-- **C33 never over (full strength)**: a client that was never refused has never had more octets
+    accepted than were advertised to it (initial 65535 + all connection WINDOW_UPDATEs). -/
+theorem C33_never_over (isw : Nat) (evs : List Ev) :
     let s := runEvs { isw := isw } evs
-    s.leakOD = 0 → s.rej = 0 → s.sent ≤ 65535 + s.wu0 := by
+    s.rej = 0 → s.sent ≤ 65535 + s.wu0 := by
   have h := C33_server_view isw evs
   simp only [] at h ⊢
-  intro h1 h2
+  intro h2
   omega
 
-/-- **replenished — partial**: if none of the three leak sites was hit, nothing was refused and the
-    handlers have read everything, the connection window is back at its initial value. -/
-theorem C33_credit_partial (isw : Nat) (evs : List Ev) :
+/-- **C33 replenished (full strength)**: for a client that respects the windows, once the handlers
+    have read (or the server has discarded) everything, all octets have been credited back: the
+    client's connection window is at its initial value again — it never stalls. -/
+theorem C33_replenished (isw : Nat) (evs : List Ev) :
     let s := runEvs { isw := isw } evs
-    s.leakOD = 0 → s.leakBC = 0 → s.leakUC = 0 → s.rej = 0 → s.held = 0 → s.wu0 = s.sent := by
-  have h := C33_credit_exact isw evs
-  simp only [] at h ⊢
-  intro h1 h2 h3 h4 h5
+    s.rej = 0 → s.held = 0 → s.wu0 = s.sent ∧ s.conn = 65535 := by
+  have h := C33_credit isw evs
+  have h' := C33_server_view isw evs
+  simp only [] at h h' ⊢
+  intro h4 h5
   omega
 
 /-- **excess is refused**: on an open stream, a DATA frame within the declared length whose Length
-    exceeds the stream or the connection window is answered with RST_STREAM(FLOW_CONTROL_ERROR) only,
-    and `sc.inflow` is not debited. -/
+    exceeds the stream or the connection window is answered with RST_STREAM(FLOW_CONTROL_ERROR)
+    (followed only by the credit for what the closed stream still had buffered), and the frame itself
+    is not debited from `sc.inflow`. -/
 theorem C33_excess_refused (s : St) (x : Stream) (id dlen : Nat) (pad : Option Nat) (e : Bool)
     (hf : find s.streams id = some x) (ho : x.st = .opn)
     (hd : (x.decl != -1 && x.bodyBytes + dlen > x.decl) = false)
     (hc : 0 ≤ s.conn) (hi : 0 ≤ x.inflow)
     (hex : (frameLen dlen pad : Int) > x.inflow ∨ (frameLen dlen pad : Int) > s.conn) :
-    (processData s id dlen pad e).1 = [.rst id 3] ∧
-    (processData s id dlen pad e).2.conn = s.conn := by
+    (processData s id dlen pad e).1.head? = some (.rst id 3) ∧
+    (processData s id dlen pad e).2.rej = s.rej + frameLen dlen pad := by
   have hav : availOf s.conn x.inflow < (frameLen dlen pad : Int) := by
     unfold availOf; split <;> omega
   have hL : frameLen dlen pad > 0 := by omega
@@ -72,7 +67,7 @@ theorem C33_excess_refused (s : St) (x : Stream) (id dlen : Nat) (pad : Option N
   unfold processData
   simp only [hf, hst, hd, hL, hav, if_true]
   refine ⟨by simp, ?_⟩
-  simp [resetStream_conn]
+  simp [resetStream_rej]
 
 /-- **accepted ⇒ within both windows**: when such a frame is not refused, its Length fits the stream
     window and the connection window as advertised, and both are debited by Length minus the padding
@@ -81,7 +76,7 @@ theorem C33_accepted_within (s : St) (x : Stream) (id dlen : Nat) (pad : Option 
     (hf : find s.streams id = some x) (ho : x.st = .opn)
     (hd : (x.decl != -1 && x.bodyBytes + dlen > x.decl) = false)
     (hL : frameLen dlen pad > 0)
-    (hacc : (processData s id dlen pad e).1 ≠ [.rst id 3]) :
+    (hacc : (processData s id dlen pad e).1.head? ≠ some (.rst id 3)) :
     (frameLen dlen pad : Int) ≤ x.inflow ∧ (frameLen dlen pad : Int) ≤ s.conn := by
   have hav := availOf_le s.conn x.inflow
   have hst : (x.st != SS.opn) = false := by rw [ho]; rfl
@@ -91,44 +86,37 @@ theorem C33_accepted_within (s : St) (x : Stream) (id dlen : Nat) (pad : Option 
   · simp [h] at hacc
   · omega
 
-/-! ### the unchanged code violates the full statements: witnesses (replayed: corpus/C33/known.ops) -/
+/-! ### the former witnesses (inputs on which the unfixed code lost octets; corpus/C33/known.ops) -/
 
-/-- content-length 0, one DATA octet: RST_STREAM(PROTOCOL_ERROR), the octet is never credited -/
+/-- content-length 0, one DATA octet: RST_STREAM(PROTOCOL_ERROR), and now the octet is credited -/
 def wOverdeclared : List Ev := [.headers 1 0 false, .data 1 1 none false, .exit 1]
-
-theorem C33_witness_leak_overdeclared : ¬ C33_credit_full := by
-  intro h
-  have := h 65535 wOverdeclared
-  revert this
+example : (step (runEvs { isw := 65535 } [.headers 1 0 false]) (.data 1 1 none false)).2.1
+    = [.rst 1 1, .wu 0 1] := by decide
+example : (runEvs { isw := 65535 } wOverdeclared).wu0 = 1 ∧ (runEvs { isw := 65535 } wOverdeclared).conn = 65535 := by
   decide
 
-/-- the handler returns without reading 10 buffered octets: they are never credited -/
+/-- the handler returns without reading 10 buffered octets: they are credited when the stream closes -/
 def wUnread : List Ev := [.headers 1 (-1) false, .data 1 10 none false, .exit 1]
-example : (runEvs { isw := 65535 } wUnread).leakUC = 10 ∧ (runEvs { isw := 65535 } wUnread).wu0 = 0 ∧
-    (runEvs { isw := 65535 } wUnread).held = 0 ∧ (runEvs { isw := 65535 } wUnread).rej = 0 := by decide
+example : (runEvs { isw := 65535 } wUnread).wu0 = 10 ∧ (runEvs { isw := 65535 } wUnread).held = 0 ∧
+    (runEvs { isw := 65535 } wUnread).conn = 65535 := by decide
 
-/-- the handler closed the body; the next DATA frame is debited, dropped and never credited -/
+/-- the handler closed the body; the next DATA frame is debited and credited back at once -/
 def wBodyClosed : List Ev := [.headers 1 (-1) false, .closeBody 1, .data 1 10 none false, .exit 1]
-example : (runEvs { isw := 65535 } wBodyClosed).leakBC = 10 ∧ (runEvs { isw := 65535 } wBodyClosed).wu0 = 0 ∧
-    (runEvs { isw := 65535 } wBodyClosed).held = 0 ∧ (runEvs { isw := 65535 } wBodyClosed).rej = 0 := by decide
+example : (runEvs { isw := 65535 } wBodyClosed).wu0 = 10 ∧ (runEvs { isw := 65535 } wBodyClosed).conn = 65535 := by
+  decide
 
-/-- after an over-declared frame of 65535 octets the server still accepts 65535 more:
-    131070 octets taken with 65535 advertised -/
+/-- after an over-declared frame of 65535 octets the window is whole again, so 65535 more fit -/
 def wOver : List Ev :=
   [.headers 1 1 false, .data 1 65535 none false, .headers 3 (-1) false, .data 3 65535 none false]
+example : (runEvs { isw := 65535 } wOver).sent = 131070 ∧ (runEvs { isw := 65535 } wOver).wu0 = 65535 ∧
+    (runEvs { isw := 65535 } wOver).rej = 0 := by decide
 
-theorem C33_witness_over_advertised : ¬ C33_never_over_full := by
-  intro h
-  have := h 65535 wOver
-  revert this
-  decide
-
-/-! ### non-vacuity: a clean exchange satisfies every hypothesis of the partial theorems -/
+/-! ### non-vacuity: a window-respecting exchange -/
 def clean : List Ev :=
   [.headers 1 20 false, .data 1 10 (some 5) false, .read 1 4, .data 1 10 none true, .read 1 100, .exit 1]
 
 example : let s := runEvs { isw := 65535 } clean
-    s.leakOD = 0 ∧ s.leakBC = 0 ∧ s.leakUC = 0 ∧ s.rej = 0 ∧ s.held = 0 ∧ s.sent = 26 ∧ s.wu0 = 26 ∧ s.conn = 65535 := by
+    s.rej = 0 ∧ s.held = 0 ∧ s.sent = 26 ∧ s.wu0 = 26 ∧ s.conn = 65535 := by
   decide
 
 end BfeVerif.C33
